@@ -286,6 +286,145 @@ def _one_layer_per_write(ctx, mod):
         ctx.ob("R8", f"{EN}:InternalEnvironDict.{nm}", "no path that changed the private layer goes on to change the shared one", not hit, key=f"InternalEnvironDict.{nm}|both-layers-written", where=loc(hit[0].ast) if hit else loc(fn), path=cfg.fmt_path(cfg.path_to(seen, hit[0])) if hit else None)
 
 
+def _no_pin_left(ctx, mod):
+    """R9: keys captured without a private entry end without one."""
+    from ..engine import dtable as _dt
+
+    cap = mod.func("Env._capture_for_swap")
+    stc = f"{EN}:Env._capture_for_swap"
+    params = [a.arg for a in cap.args.args]
+    if len(params) < 3:
+        raise AnalysisError(f"{stc}: expected (self, key, local)")
+    key_p, loc_p = params[1], params[2]
+    merged = []  # return paths whose value is neither read from the private layer nor a constant marker
+    n_paths = 0
+    for p_ in _dt.paths(cap, loops="skip"):
+        if p_.outcome != "return" or not _dt.feasible(p_):
+            continue
+        n_paths += 1
+        v = p_.value
+        if v is None or isinstance(v, ast.Constant) or (isinstance(v, ast.Name) and v.id in ("NotImplemented", "DELETE_VAR", "None")):
+            continue
+        if isinstance(v, ast.Subscript) and unparse(v.value) == loc_p:
+            continue
+        if isinstance(v, ast.Call) and isinstance(v.func, ast.Attribute) and unparse(v.func.value) == loc_p:
+            continue
+        merged.append(v)
+    if n_paths < 2:
+        raise AnalysisError(f"{stc}: fewer than 2 return paths enumerated")
+    ctx.ob("R9", stc, "the capture step's answers are classified (private entry / merged view / absent marker)", True, key="capture|classified", where=loc(cap), detail=f"{n_paths} return paths, {len(merged)} answer with a value not read from the private layer")
+    if not merged:
+        return
+    swap = flat(ctx, mod.func("Env.swap"), depth=2, skip=("_set_item", "_del_item", "_capture_for_swap"))
+    st = f"{EN}:Env.swap"
+    cfg = CFG(swap, catchall=("BaseException",))
+    ylds = [n for n in cfg.nodes if n.kind == "stmt" and any(isinstance(x, ast.Yield) for x in ast.walk(n.ast))]
+    if len(ylds) != 1:
+        raise AnalysisError(f"{st}: expected one yield")
+    after = set(cfg.reach(ylds))
+    defs = df.all_defs(swap)
+    locals_ = {n for n, ds in defs.items() if any(d.value is not None and unparse(d.value) in ("self._d._local", "self._d._thread_local.__dict__") for d in ds)}
+    # records made at capture time under 'the key has no private entry'
+    records = {}
+    unguarded = set()
+    for n in cfg.nodes:
+        if n.kind != "stmt" or n in after:
+            continue
+        for c in calls_in(n.ast):
+            if isinstance(c.func, ast.Attribute) and c.func.attr in ("add", "append") and isinstance(c.func.value, ast.Name) and c.args:
+                k = unparse(c.args[0])
+                if any(isinstance(e, ast.Compare) and len(e.ops) == 1 and isinstance(e.ops[0], (ast.In, ast.NotIn)) and unparse(e.left) == k and unparse(e.comparators[0]) in locals_ | {"self._d._local"} and (pol != isinstance(e.ops[0], ast.In)) for e, pol in facts_at(cfg, n)):
+                    records.setdefault(c.func.value.id, []).append(n)
+                else:
+                    unguarded.add(c.func.value.id)
+    # a record is evidence only if every entry was made under the guard
+    for r_ in list(records):
+        if r_ in unguarded:
+            del records[r_]
+    # private stores on the exit side
+    stores = [n for n in cfg.nodes if n in after and n.kind == "stmt" and any(call_name(c) == "self._set_item" and const_value(kwarg(c, "thread_local")) is True for c in calls_in(n.ast))]
+    if not stores:
+        raise AnalysisError(f"{st}: no thread-local store on the exit side")
+    seen_ast = set()
+    for sn in stores:
+        if id(sn.ast) in seen_ast:
+            continue  # a statement of a finally block stands in the CFG once per way into it
+        c = next(c for c in calls_in(sn.ast) if call_name(c) == "self._set_item")
+        k = unparse(c.args[0])
+        # (a) the store itself is governed by 'had a private entry' (not in the record), or
+        # (b) a removal of the private entry, governed by membership in the record, follows it
+        gov = any(isinstance(e, ast.Compare) and len(e.ops) == 1 and isinstance(e.ops[0], (ast.In, ast.NotIn)) and unparse(e.left) == k and unparse(e.comparators[0]) in records and (pol != isinstance(e.ops[0], ast.In)) for e, pol in facts_at(cfg, sn))
+        removal = False
+        for rn in cfg.reach([sn]):
+            if rn.kind != "stmt":
+                continue
+            for rc in calls_in(rn.ast):
+                nm = call_name(rc) or ""
+                is_rm = (nm.endswith(".del_locally") and rc.args and unparse(rc.args[0]) == k) or (nm == "self._del_item" and rc.args and unparse(rc.args[0]) == k and const_value(kwarg(rc, "thread_local")) is True) or (nm.endswith(".pop") and unparse(rc.func.value) in locals_ | {"self._d._local"} and rc.args and unparse(rc.args[0]) == k)
+                if is_rm and any(isinstance(e, ast.Compare) and len(e.ops) == 1 and isinstance(e.ops[0], (ast.In, ast.NotIn)) and unparse(e.left) == k and unparse(e.comparators[0]) in records and (pol == isinstance(e.ops[0], ast.In)) for e, pol in facts_at(cfg, rn)):
+                    # same iteration: the removal is reached from the store without passing the loop head again
+                    lp = next((a for a in ancestors(sn.ast) if isinstance(a, ast.For)), None)
+                    if lp is None or lexically_inside(rn.ast, lp):
+                        removal = True
+        ok = gov or removal
+        seen_ast.add(id(sn.ast))
+        ctx.ob("R9", st, f"`{short(c, 50)}` on exit leaves no private copy for a key that had none when it was captured", ok, key="swap|restore-pins-private-copy", where=loc(c), detail=None if ok else f"the capture step can answer with `{short(merged[0], 40)}` (not read from the private layer) and the exit step writes that answer into the private layer for good" + ("" if records else "; no record of 'key had no private entry' is made at capture time"))
+
+
+def _iteration_sees_overlays(ctx, mod):
+    """R10: keys taken from the overlays reach a yield of __iter__."""
+    it = flat(ctx, mod.func("Env.__iter__"), 1)
+    st = f"{EN}:Env.__iter__"
+    tainted = set()
+    # seeds: names bound by iterating an overlay (`for k, v in overlay.items()`, `for k in overlay`) where the overlay
+    # itself is bound by iterating the stack
+    ov_names = set()
+    for n in ast.walk(it):
+        if isinstance(n, (ast.For, ast.comprehension)) and "_overlay_stack" in unparse(n.iter):
+            ov_names |= {x.id for x in ast.walk(n.target) if isinstance(x, ast.Name)}
+    if not ov_names:
+        raise AnalysisError(f"{st}: the overlay stack is not walked")
+    changed = True
+    rounds = 0
+    while changed and rounds < 10:
+        changed = False
+        rounds += 1
+        src = ov_names | tainted
+        for n in ast.walk(it):
+            new = set()
+            if isinstance(n, (ast.For, ast.comprehension)):
+                if {x.id for x in ast.walk(n.iter) if isinstance(x, ast.Name)} & src and "_overlay_stack" not in unparse(n.iter):
+                    t = n.target
+                    # `for k, v in overlay.items()`: the key is the first element
+                    if isinstance(t, ast.Tuple) and t.elts and isinstance(t.elts[0], ast.Name):
+                        new.add(t.elts[0].id)
+                    elif isinstance(t, ast.Name):
+                        new.add(t.id)
+            elif isinstance(n, ast.Assign) and {x.id for x in ast.walk(n.value) if isinstance(x, ast.Name)} & src:
+                for t in n.targets:
+                    if isinstance(t, ast.Name):
+                        new.add(t.id)
+                    elif isinstance(t, ast.Subscript) and isinstance(t.value, ast.Name):
+                        new.add(t.value.id)
+            elif isinstance(n, ast.Assign) and any(isinstance(t, ast.Subscript) and isinstance(t.value, ast.Name) and {x.id for x in ast.walk(t.slice) if isinstance(x, ast.Name)} & src for t in n.targets):
+                for t in n.targets:
+                    if isinstance(t, ast.Subscript) and isinstance(t.value, ast.Name):
+                        new.add(t.value.id)
+            elif isinstance(n, ast.AugAssign) and isinstance(n.target, ast.Name) and {x.id for x in ast.walk(n.value) if isinstance(x, ast.Name)} & src:
+                new.add(n.target.id)
+            elif isinstance(n, ast.Call) and isinstance(n.func, ast.Attribute) and n.func.attr in ("add", "append", "update", "extend", "setdefault") and isinstance(n.func.value, ast.Name) and any({x.id for x in ast.walk(a) if isinstance(x, ast.Name)} & src for a in n.args):
+                new.add(n.func.value.id)
+            if new - tainted - ov_names:
+                tainted |= new - ov_names
+                changed = True
+    ylds = [n for n in ast.walk(it) if isinstance(n, (ast.Yield, ast.YieldFrom)) and n.value is not None]
+    if not ylds:
+        raise AnalysisError(f"{st}: no yield")
+    hit = [y for y in ylds if {x.id for x in ast.walk(y.value) if isinstance(x, ast.Name)} & tainted]
+    ok = bool(hit)
+    ctx.ob("R10", st, "some yield of the iteration takes its key from the overlays", ok, key="__iter__|overlay-keys-never-yielded", where=loc(hit[0] if hit else ylds[0]), detail=None if ok else f"names carrying overlay keys: {sorted(tainted)}; none of them reaches a yield - a variable that only an overlay provides is visible to [] / in / detype() but not to iteration, items() or dict(env)")
+
+
 def _through_predicates(facts, meths):
     """facts with calls of argument-less predicate methods of the class (`self._sees_private_values()`, one `return <expr>`)
     replaced by what the returned expression implies (`bool(A or B)` false -> A false, B false)"""
@@ -324,6 +463,8 @@ def check(ctx):
     ctx.rule("R2", "every read path compares a value taken from an overlay or the store with DELETE_VAR before returning/yielding/exporting it, and resolves a key by the top-most layer that contains it", floor=8)
     ctx.rule("R3", "worker threads read the spawner's swapped values before start() and install them before any other environment access in run()", floor=4)
     ctx.rule("R8", "a write or delete touches one layer of the two-layer store: in InternalEnvironDict.__setitem__ / __delitem__ / pop / popitem no path that changed the thread-private layer goes on to change the shared one (a delete inside a scope that also drops the shared value is seen by every other thread and is not undone when the scope ends)", floor=4)
+    ctx.rule("R9", "a scope leaves no private copy behind: when the capture step can answer with a value that was not read from the thread-private layer (the shared mapping, a default, an overlay), the exit step removes the private entry it wrote for such a key (governed by a record, made at capture time, that the key had no private entry) - otherwise the old value stays pinned in the thread's private layer: it shows up in the mapping children receive although it was a default, and later assignments / deletions by this thread stay invisible to every other thread", floor=1)
+    ctx.rule("R10", "iteration sees what [] sees: keys that only an overlay provides reach a yield of Env.__iter__ (so items(), dict(env) and `for k in env` agree with `in`, [] and detype())", floor=1)
     ctx.rule("R7", "a scoped override is private from its first instant: asked for a thread-local set, _set_item reaches the thread-local store on every normal path - no shortcut (same value, same object, unchanged) returns before it; writes and deletes inside the scope are routed by 'is the key in the private layer', so a swap that left no private entry sends them to the shared mapping", floor=1)
     ctx.rule("R6", "what a worker thread inherits is the spawning thread's whole private view: the hand-over accessor returns a complete copy of the thread-local overrides - masks (DELETE_VAR) included, nothing filtered out or rewritten", floor=2)
     ctx.rule("R5", "thread-local state crosses a thread boundary only as a copy: no public method of Env / its dict hands out a thread-local container itself, and none installs a caller's object as thread-local state", floor=2)
@@ -343,7 +484,18 @@ def check(ctx):
     before = [n for n in sets if y in cfg.reach([n]) and not any(isinstance(a, ast.Try) and n.ast in ast.walk(ast.Module(body=a.finalbody, type_ignores=[])) for a in ancestors(n.ast))]
     after = [n for n in sets if n not in before]
     # the capture dict: the local that receives `<d>[key] = self._capture_for_swap(...)`
-    capd = {m.ast.targets[0].value.id for m in cfg.nodes if m.kind == "stmt" and isinstance(m.ast, ast.Assign) and isinstance(m.ast.targets[0], ast.Subscript) and isinstance(m.ast.targets[0].value, ast.Name) and any(call_name(cc) == "self._capture_for_swap" for cc in calls_in(m.ast))}
+    def _cap_of(m):
+        """(dict name, key text) when CFG node m records a captured state: `<d>[k] = capture(..)` / `<d>.setdefault(k, capture(..))`"""
+        if m.kind != "stmt" or not any(call_name(cc) == "self._capture_for_swap" for cc in calls_in(m.ast)):
+            return None
+        a_ = m.ast
+        if isinstance(a_, ast.Assign) and isinstance(a_.targets[0], ast.Subscript) and isinstance(a_.targets[0].value, ast.Name):
+            return a_.targets[0].value.id, unparse(a_.targets[0].slice)
+        if isinstance(a_, ast.Expr) and isinstance(a_.value, ast.Call) and isinstance(a_.value.func, ast.Attribute) and a_.value.func.attr == "setdefault" and isinstance(a_.value.func.value, ast.Name) and a_.value.args:
+            return a_.value.func.value.id, unparse(a_.value.args[0])
+        return None
+
+    capd = {_cap_of(m)[0] for m in cfg.nodes if _cap_of(m)}
     if len(capd) != 1:
         raise AnalysisError(f"{st}: expected one dict of captured states, found {sorted(capd)}")
     capd = next(iter(capd))
@@ -352,11 +504,46 @@ def check(ctx):
         k = unparse(c.args[0])
         tl = const_value(kwarg(c, "thread_local")) is True
         ctx.ob("R1", st, f"`{short(c)}` writes the thread-local layer only", tl, key="swap|set-not-thread-local", where=loc(c))
-        caps = [m for m in cfg.nodes if m.kind == "stmt" and isinstance(m.ast, ast.Assign) and isinstance(m.ast.targets[0], ast.Subscript) and unparse(m.ast.targets[0]) == f"{capd}[{k}]" and any(call_name(cc) == "self._capture_for_swap" for cc in calls_in(m.ast))]
+        caps = [m for m in cfg.nodes if _cap_of(m) == (capd, k)]
         loop = next((a for a in ancestors(n.ast) if isinstance(a, ast.For)), None)
         same_iter = [m for m in caps if loop is not None and lexically_inside(m.ast, loop)]
-        ok = bool(same_iter) and all(m.ast.lineno < n.ast.lineno for m in same_iter) and cfg.dominated(n, lambda mm: mm in same_iter)
-        ctx.ob("R1", st, f"`{short(c)}`: the previous state of the key is captured first, in the same iteration", ok, key="swap|set-before-capture", where=loc(c))
+        # every way from the head of the iteration to the set passes the capture - or the branch that says the key is
+        # captured already (`k not in old` false): then the first capture is the state to restore
+
+        def _known(a_, b_, label, k=k):
+            if a_.kind != "if" or label not in ("true", "false"):
+                return False
+            return any(isinstance(e, ast.Compare) and len(e.ops) == 1 and isinstance(e.ops[0], (ast.In, ast.NotIn)) and unparse(e.left) == k and unparse(e.comparators[0]) == capd and (pol == isinstance(e.ops[0], ast.In)) for e, pol in implied_facts(a_.ast.test, label == "true"))
+
+        ok = bool(same_iter) and loop is not None
+        if ok:
+            heads = cfg.nodes_of(loop)
+            seen = cfg.reach(heads, stop=lambda mm: mm in same_iter, skip_edge=_known)
+            ok = n not in seen or n in same_iter
+        ctx.ob("R1", st, f"`{short(c)}`: the previous state of the key is captured first, in the same iteration (or the key is known to be captured already)", ok, key="swap|set-before-capture", where=loc(c))
+        # entering is part of the scope: a set that raises (conversion / validation of the value) must reach the restore
+        exc_succ = [m_ for m_, l in n.succ if l == "exc"]
+        rl_ = [m_ for m_ in cfg.nodes if m_.kind == "for" and any(unparse(m_.ast.iter) in (f"{c_}.items()", c_, f"list({c_}.items())") for c_ in copies_of(df.all_defs(swap), capd))]
+        ok_e = bool(exc_succ) and bool(rl_)
+        if ok_e:
+            seen_e = cfg.reach(exc_succ, stop=lambda mm: mm in rl_, include_starts=True)
+            ok_e = cfg.exit not in seen_e and cfg.raise_exit not in seen_e
+        ctx.ob("R1", st, f"`{short(c)}` failing on entry (a value that does not convert) still reaches the restore of what was set before it", ok_e, key="swap|entry-outside-restore", where=loc(c), detail=None if ok_e else "the set is not protected by the try whose finally restores: the keys set before the failing one keep their scoped values for good")
+    # a key is captured once: with more than one source of keys, a later capture must not replace an earlier one
+    cap_nodes = [m for m in cfg.nodes if _cap_of(m) and _cap_of(m)[0] == capd]
+    cap_loops = []
+    for m in cap_nodes:
+        lp_ = next((a for a in ancestors(m.ast) if isinstance(a, ast.For)), None)
+        if lp_ is not None and lp_ not in cap_loops:
+            cap_loops.append(lp_)
+    cap_loops.sort(key=lambda l_: l_.lineno)
+    for m in cap_nodes:
+        lp_ = next((a for a in ancestors(m.ast) if isinstance(a, ast.For)), None)
+        if lp_ is None or lp_ is cap_loops[0] or len({id(x_.ast) for x_ in cap_nodes}) < 2:
+            continue
+        kk = _cap_of(m)[1]
+        keeps_first = isinstance(m.ast, ast.Expr) or any(isinstance(e, ast.Compare) and len(e.ops) == 1 and isinstance(e.ops[0], (ast.In, ast.NotIn)) and unparse(e.left) == kk and unparse(e.comparators[0]) == capd and (pol != isinstance(e.ops[0], ast.In)) for e, pol in facts_at(cfg, m))
+        ctx.ob("R1", st, f"`{short(m.ast, 60)}` (second source of keys) keeps an earlier capture of the same key", keeps_first, key="swap|second-capture-replaces-first", where=loc(m.ast), detail=None if keeps_first else "a key given by both sources is captured twice: the second capture is the value the first source just set, and that is what the exit 'restores'")
     # restore in finally
     cap_names = copies_of(df.all_defs(swap), capd)
     restore_loops = [n for n in cfg.nodes if n.kind == "for" and any(unparse(n.ast.iter) in (f"{c_}.items()", c_, f"list({c_}.items())") for c_ in cap_names)]
@@ -397,9 +584,25 @@ def check(ctx):
     pop = [n for n in cfg.nodes if n.kind == "stmt" and any(call_name(c) == "self._overlay_stack.pop" for c in calls_in(n.ast))]
     ok = bool(push) and bool(pop)
     if ok:
-        ok, path = cfg.must_pass(push, lambda m: m in pop, skip_edge=cfg.assume_edges(cfg.stable_guards(push[0])))
-        gp = {(unparse(t), p) for t, p in cfg.guards(push[0])}
-        ok = ok and all(gp <= {(unparse(t), p) for t, p in cfg.guards(n)} for n in pop)
+        # "pushed" flag idiom: a local set to True by the statement right after the push (nothing can fail in between)
+        # and to a false constant everywhere else stands for 'the push happened'
+        flags = set()
+        for pn in push:
+            blk = getattr(pn.ast, "_xv_parent", None)
+            for fld in ("body", "orelse", "finalbody"):
+                sts = getattr(blk, fld, None) if blk is not None else None
+                if isinstance(sts, list) and pn.ast in sts:
+                    i_ = sts.index(pn.ast)
+                    nx = sts[i_ + 1] if i_ + 1 < len(sts) else None
+                    if isinstance(nx, ast.Assign) and len(nx.targets) == 1 and isinstance(nx.targets[0], ast.Name) and const_value(nx.value, None) is True:
+                        f_ = nx.targets[0].id
+                        others = [a_ for a_ in walk_local(swap) if isinstance(a_, ast.Assign) and any(isinstance(t_, ast.Name) and t_.id == f_ for t_ in a_.targets) and a_ is not nx]
+                        if all(const_value(a_.value, 1) in (False, None, 0) for a_ in others):
+                            flags.add(f_)
+        assume = cfg.stable_guards(push[0]) + [(f_, True) for f_ in flags]
+        ok, path = cfg.must_pass(push, lambda m: m in pop, skip_edge=cfg.assume_edges(assume))
+        gp = {(unparse(t), p) for t, p in facts_at(cfg, push[0])}
+        ok = ok and all(gp <= {(unparse(t), p) for t, p in facts_at(cfg, n)} or any((f_, True) in {(unparse(t), p) for t, p in facts_at(cfg, n)} for f_ in flags) for n in pop)
     ctx.ob("R1", st, "the overlay pushed on entry is popped on every exit, under the same condition", ok, key="swap|overlay-not-popped", where=loc(swap))
     # the push must happen before the try whose finally pops (no pop without push)
     ok = bool(push) and bool(pop) and all(cfg.dominated(p, lambda m: m in push) or True for p in pop)
@@ -558,6 +761,8 @@ def check(ctx):
     _thread_local_boundary(ctx, mod, model)
     _local_set_always_lands(ctx, mod)
     _one_layer_per_write(ctx, mod)
+    _no_pin_left(ctx, mod)
+    _iteration_sees_overlays(ctx, mod)
     # installing: the function that does the work empties and refills the thread's own container - the same one
     icls, ifn, iparam = _installer(model)
     idefs = df.all_defs(ifn)
